@@ -26,8 +26,10 @@ def norm(s):
 class C20(core.Check):
     pid = 'C20'
     unproved = [
-        'DynamicNumpyArray = list composition is proved for add_candle / batch_add_candle (addCandleD_refines, batchAddD_refines); '
-        'for add_multiple_1m_candles (arr[-k:] = rows) it is still the C18 theorems plus the correspondence pass',
+        'DynamicNumpyArray = list composition: proved for add_candle / batch_add_candle (addCandleD_refines, batchAddD_refines) '
+        'and for add_multiple_1m_candles when the chunk is entirely new or ends at the last stored minute (addMultipleD_refines: '
+        'the two ways the fast simulator calls it); a chunk that overlaps the stored series AND ends later writes past the '
+        'logical end of the array: C18 theorems plus the correspondence pass (st addmultid) only',
     ]
     rule = ('correspondence: the real _fill_absent_candles on every bitmask of present minutes (intervals up to 7 minutes '
             'exhaustively, longer ones seeded) and the real candle store (add_candle with new / repeated / older / unknown / '
@@ -37,7 +39,7 @@ class C20(core.Check):
             'open; stored timestamps strictly increasing after every add, new appended, same timestamp replaced); '
             'non-trivial = at least one missing minute / at least one repeated or older candle; distinct = distinct inputs')
     assumptions = ['the store model keeps candles in plain lists; that add_candle on the DynamicNumpyArray model is that list '
-                   'algorithm is proved here (composition with C18), for add_multiple_1m_candles it is C18 alone']
+                   'algorithm is proved here (composition with C18); add_multiple_1m_candles likewise except for overlapping chunks that end later']
 
     # ------------------------------------------------------------------ fill absent
     def fa_cases(self, boost):
@@ -151,6 +153,10 @@ class C20(core.Check):
             lines.append(f'st addmulti {len(base)} ' + ' '.join(cw(c) for c in base) + f' {len(cs)} ' + ' '.join(cw(c) for c in cs))
             expect.append(py)
             res.count('add_multiple_1m')
+            # the same calls on the array model (bucket 50 as created above)
+            lines.append(f'st addmultid 50 {len(base)} ' + ' '.join(cw(c) for c in base) + f' {len(cs)} ' + ' '.join(cw(c) for c in cs))
+            expect.append(py)
+            res.count('add_multiple_1m-on-array-model')
         # spacing check
         for d in (M, 2 * M, 0, -M, 59_999, 5 * M):
             cs = [[10 * M, 1, 1, 1, 1, 1], [10 * M + d, 1, 1, 1, 1, 1], [10 * M + d + M, 1, 1, 1, 1, 1]]
